@@ -5,7 +5,7 @@
 set -eu
 id="$1"; name="$2"; expect="$3"
 export PATH=/opt/veriftools/go1.27.0/bin:$PATH GOFLAGS=-mod=mod GOPROXY=off GOSUMDB=off GOTOOLCHAIN=local GOWORK=off
-cd /repo
+cd "${MUTREPO:-/repo}"   # MUTREPO: a scratch worktree at /repo HEAD, for when /repo is busy
 if git diff --quiet; then echo "no diff in /repo" >&2; exit 1; fi
 if ! go build ./... ; then echo "mutant does not build" >&2; git checkout -- .; exit 1; fi
 mkdir -p /verif/selftest/$id
